@@ -464,6 +464,20 @@ EvalSteps(items, nodes, k, r) ==     \* r = [v, calls] so far
 \* the documented value of the chain on an input: evaluate step by step, then drain iterators
 Eval(c, x) == Drain(EvalSteps(c.items, Desugar(c.items), 1, R(x, <<>>)))
 
+\* The same chain as the single branch of a TRY macro: the macro looks at the branch's value at the end of every step and
+\* stops there if it is a failure (None / Err): nothing of a later step - callback, capture, operand - is evaluated (C05, C06).
+Failed(v) == v.t \in {"none", "err"}
+RECURSIVE EvalStepsT(_, _, _, _)
+EvalStepsT(items, nodes, k, r) ==
+  IF k > Len(nodes) THEN r
+  ELSE LET starts == k = 1 \/ items[nodes[k].site].deferred IN
+       IF items[nodes[k].site].deferred /\ Failed(r.v) THEN r      \* (also in front of a chain that begins with `~`)
+       ELSE LET caps == IF starts THEN CapCalls(items, IF k = 1 THEN 1 ELSE nodes[k].site, NextStepSite(items, nodes, k) - 1) ELSE <<>>
+                a == Apply1(nodes[k], r.v)
+            IN  EvalStepsT(items, nodes, k + 1, R(a.v, r.calls \o caps \o a.calls))
+EvalTry(c, x) == Drain(EvalStepsT(c.items, Desugar(c.items), 1, R(x, <<>>)))
+HasDeferred(c) == \E i \in 1 .. Len(c.items) : c.items[i].deferred
+
 ---------------------------------------------------------------------------
 \* inputs per start type
 Inputs(t) ==
@@ -536,10 +550,19 @@ Alphabet ==
          IN  blk \cup {Def(it) : it \in blk} \cup {It("map", "inc"), It("dot", "into_iter"), It("collect", ""), Def(It("inspect", "nop"))}
              \cup {Wrap(op) : op \in {"map", "and_then", "filter_map"}} \cup {Unwrap}
     \* (wrappers are also opened by the first action of a later step: `~=> >>>`, closed explicitly or implicitly there)
+    \* C05 / C06 at the level of values: Option / Result chains cut into steps by `~`, with operators that act on failures,
+    \* captures and wrappers behind the cuts; meant for the try macros (EvalTry)
+    [] Family = "trysteps" ->
+         LET base == {p \in PlainItems : p.op \in {"map", "and_then", "or", "or_else", "map_err", "then", "inspect", "filter"}}
+             blk  == {Shaped(It("map", "inc"), "block"), Shaped(It("or_else", "mk9"), "block"), Shaped(It("then", "idt"), "block"),
+                      Shaped(It("or", "alt9"), "block"), Shaped(It("map_err", "e10"), "block")}
+         IN  base \cup {Def(it) : it \in base} \cup blk \cup {Def(it) : it \in blk}
+             \cup {Wrap("map"), Wrap("and_then"), Def(Wrap("map")), Def(Wrap("and_then")), Unwrap}
     [] Family = "wrap"  -> SmallItems \cup WrapItems \cup {Def(it) : it \in {It("map", "inc"), It("inspect", "nop"), It("dot", "is_some")}}
                            \cup {Def(Wrap(op)) : op \in {"map", "and_then", "filter_map", "inspect"}}
 
-Init == chain \in {[start |-> t, items |-> <<>>] : t \in IF Family = "capwrap" THEN {"OOI", "ItOI", "ItI", "OI"} ELSE StartTypes}
+Init == chain \in {[start |-> t, items |-> <<>>] : t \in IF Family = "capwrap" THEN {"OOI", "ItOI", "ItI", "OI"}
+                                                        ELSE IF Family = "trysteps" THEN {"OI", "RI", "OOI"} ELSE StartTypes}
 Next == /\ Len(chain.items) < MaxLen
         /\ \E it \in Extensions(chain, Alphabet) :
               /\ (Family = "wrap" => (Len(chain.items) > 0 \/ it.mv = "wrap" \/ TRUE))
@@ -584,5 +607,9 @@ EmitChain ==
   (Len(chain.items) > 0 /\ WellTyped) =>
      PrintT(<<"CHAIN", ToJson([start |-> chain.start, items |-> chain.items, ty |-> TyChain(chain),
                                 sites |-> SiteTys(Desugar(chain.items), chain.start), tree |-> Desugar(chain.items),
-                                cases |-> {[inp |-> InputJson(e.inp), v |-> e.out.v, calls |-> e.out.calls] : e \in Expect(chain)}])>>)
+                                cases |-> {[inp |-> InputJson(e.inp), v |-> e.out.v, calls |-> e.out.calls] : e \in Expect(chain)},
+                                \* expectation under a try macro (differs from `cases` only if there is a later step)
+                                tcases |-> IF HasDeferred(chain)
+                                           THEN {LET o == EvalTry(chain, x) IN [inp |-> InputJson(x), v |-> o.v, calls |-> o.calls] : x \in Inputs(chain.start)}
+                                           ELSE {}])>>)
 =============================================================================
